@@ -28,6 +28,9 @@ FAMILY_MODULE = {
 }
 
 
+KNOWN_MATCHER = None  # set by the CLI before the pool forks: (property, violation, result) -> finding id or None
+
+
 class HarnessTimeout(Exception):
     pass
 
@@ -52,7 +55,7 @@ def _chunk(args):
     faulthandler.enable()
     agg = {
         "n": 0, "keys": [], "probes": Counter(), "faults": Counter(), "steps": 0, "vtime": 0.0, "viol": [],
-        "samples": [], "log": [], "orders": 0,
+        "samples": [], "log": [], "orders": 0, "known": {},
     }
     for i in range(start, start + count):
         s = run_seed(base_seed, fam, focus, i)
@@ -74,6 +77,16 @@ def _chunk(args):
         others = [v for v in res["violations"] if v["property"] != focus]
         for v in others:
             agg["probes"]["other_property_observations:" + v["property"]] += 1
+        if mine and KNOWN_MATCHER is not None:
+            # violations matching a recorded finding are tallied, they neither stop the batch nor get minimised
+            rest = []
+            for v in mine:
+                kf = KNOWN_MATCHER(focus, v, res)
+                if kf is None:
+                    rest.append(v)
+                else:
+                    agg["known"][kf] = agg["known"].get(kf, 0) + 1
+            mine = rest
         if mine:
             agg["cut_short"] = True
             agg["viol"].append(
@@ -90,7 +103,7 @@ def run_batch(fam: str, focus: str, params: dict, base_seed: int, runs: int, job
               chunk: int = 25, per_chunk_timeout: float = 900.0) -> dict:
     total = {
         "n": 0, "keys": set(), "probes": Counter(), "faults": Counter(), "steps": 0, "vtime": 0.0, "viol": [],
-        "samples": [], "log": [], "stopped_early": False,
+        "samples": [], "log": [], "stopped_early": False, "known": {},
     }
     tasks = [(fam, focus, params, base_seed, st, min(chunk, runs - st), 2 if st == 0 else 0) for st in range(0, runs, chunk)]
     if jobs <= 1:
@@ -153,6 +166,8 @@ def run_batch(fam: str, focus: str, params: dict, base_seed: int, runs: int, job
 
 def _merge(total, agg):
     total["n"] += agg["n"]
+    for k, v in agg.get("known", {}).items():
+        total["known"][k] = total["known"].get(k, 0) + v
     total["keys"].update(agg["keys"])
     for k, v in agg["probes"].items():
         if k.startswith("max_"):
